@@ -3,6 +3,7 @@ package main
 // Contract expressions (Go syntax + a few built-ins) -> SMT terms.
 
 import (
+	"sort"
 	"os"
 	"fmt"
 	"go/ast"
@@ -936,8 +937,8 @@ func (e *exprEnv) call(n *ast.CallExpr) (cval, error) {
 			}
 			ord, _ := strconv.Atoi(o1.Value)
 			ai, _ := strconv.Atoi(o2.Value)
-			recs := e.f.callLog[id.Name]
-			if ord >= len(recs) {
+			rec, _ := e.f.callRecAt(id.Name, ord)
+			if rec == nil {
 				// not executed yet on any path to this point: an unconstrained value (guard with called(...))
 				if c := e.f.findCall(id.Name); c != nil {
 					var tps []types.Type
@@ -953,11 +954,11 @@ func (e *exprEnv) call(n *ast.CallExpr) (cval, error) {
 				}
 				return cval{}, fmt.Errorf("callarg(%s, %d, %d): no such call", id.Name, ord, ai)
 			}
-			if ai >= len(recs[ord].args) {
+			if ai >= len(rec.args) {
 				return cval{}, fmt.Errorf("callarg(%s, %d, %d): no such argument", id.Name, ord, ai)
 			}
-			av := recs[ord].args[ai]
-			return cval{term: e.f.termOfVal(av), typ: recs[ord].argT[ai]}, nil
+			av := rec.args[ai]
+			return cval{term: e.f.termOfVal(av), typ: rec.argT[ai]}, nil
 		case "callres", "called":
 			// callres(Callee[, ordinal[, resultIndex]]) / called(Callee[, ordinal]): the result / reach condition of a call in this function
 			id, ok := n.Args[0].(*ast.Ident)
@@ -985,7 +986,8 @@ func (e *exprEnv) call(n *ast.CallExpr) (cval, error) {
 				}
 				return cval{term: "(or " + strings.Join(cs, " ") + ")", typ: boolT}, nil
 			}
-			if ord >= len(recs) {
+			recp, _ := top.callRecAt(id.Name, ord)
+			if recp == nil {
 				// the call has not been reached on any path so far (or does not exist): never called
 				if name == "called" {
 					return cval{term: "false", typ: boolT}, nil
@@ -995,7 +997,7 @@ func (e *exprEnv) call(n *ast.CallExpr) (cval, error) {
 				}
 				return cval{}, fmt.Errorf("callres(%s, %d): no such call", id.Name, ord)
 			}
-			rec := recs[ord]
+			rec := *recp
 			if name == "called" {
 				return cval{term: rec.cond, typ: boolT}, nil
 			}
@@ -1917,4 +1919,82 @@ func (f *frame) findCall(name string) *ssa.Call {
 		}
 	}
 	return nil
+}
+
+// callSiteNames: the names a call site is known by in contracts (Callee, and Receiver_Callee for methods).
+func callSiteNames(c *ssa.CallCommon) (string, string) {
+	n, n2 := "", ""
+	if c.IsInvoke() {
+		n = c.Method.Name()
+	} else if fn := c.StaticCallee(); fn != nil {
+		n = fn.Name()
+		if fn.Signature.Recv() != nil {
+			rt := fn.Signature.Recv().Type()
+			if p, ok := rt.(*types.Pointer); ok {
+				rt = p.Elem()
+			}
+			if nt, ok := rt.(*types.Named); ok {
+				n2 = nt.Obj().Name() + "_" + n
+			}
+		}
+	}
+	return n, n2
+}
+
+// callSites: the call sites of a callee in this function that produce a value, in source order. The ordinals of
+// callres / callarg / called(F, k) count these (a site not reached yet on the current path has no record).
+func (f *frame) callSites(name string) []*ssa.CallCommon {
+	if f.sitesCache == nil {
+		f.sitesCache = map[string][]*ssa.CallCommon{}
+	}
+	if s, ok := f.sitesCache[name]; ok {
+		return s
+	}
+	type site struct {
+		c   *ssa.CallCommon
+		pos token.Pos
+		idx int
+	}
+	var sites []site
+	k := 0
+	for _, b := range f.fn.Blocks {
+		for _, in := range b.Instrs {
+			c, ok := in.(*ssa.Call)
+			if !ok {
+				continue
+			}
+			n, n2 := callSiteNames(&c.Call)
+			if n == name || n2 == name {
+				sites = append(sites, site{&c.Call, c.Pos(), k})
+				k++
+			}
+		}
+	}
+	sort.SliceStable(sites, func(i, j int) bool {
+		if sites[i].pos != sites[j].pos {
+			return sites[i].pos < sites[j].pos
+		}
+		return sites[i].idx < sites[j].idx
+	})
+	var out []*ssa.CallCommon
+	for _, s := range sites {
+		out = append(out, s.c)
+	}
+	f.sitesCache[name] = out
+	return out
+}
+
+// callRecAt returns the record of the ord-th call site (source order) of name, or nil if that site does not exist
+// (exists=false) or has not been executed on the way to the current point.
+func (f *frame) callRecAt(name string, ord int) (rec *callRec, exists bool) {
+	sites := f.callSites(name)
+	if ord >= len(sites) {
+		return nil, false
+	}
+	for i := range f.callLog[name] {
+		if f.callLog[name][i].common == sites[ord] {
+			return &f.callLog[name][i], true
+		}
+	}
+	return nil, true
 }
